@@ -296,6 +296,8 @@ def run_case(inp, ctx):
     judge = inp['judge']
     if judge == 'g':
         return run_g(ctx)
+    if judge == 'h':
+        return run_h(ctx)
     if judge == 'chain':
         return run_chain(inp, ctx)
     got = execute(inp)
@@ -930,11 +932,40 @@ def run_g(ctx):
                           'first' % (x, y, first))
 
 
+def run_h(ctx):
+    """One error cell behind both operands of an operator (directly, or after
+    it went through another operator or function): the result is that error,
+    stored and handed on like any other."""
+    for code in CODES:
+        for sym in sorted({SYM[op] for op in BINOPS}):
+            for fname, form in (('same', 'A1%sA1'), ('plus', 'A1%s(A1+1)'),
+                                ('sum', 'SUM(A1:A1)%sA1'),
+                                ('abs', 'A1%sABS(A1)')):
+                text = form % sym
+                cells = {'Sheet1!A1': fcall.ERROR_FORMULA[code],
+                         'Sheet1!Z1': '=' + text, 'Sheet1!Z2': '=Z1',
+                         'Sheet1!Z3': '=ISERROR(' + text + ')'}
+                model = lib.compile_dict(cells)
+                ev = lib.Evaluator(model)
+                got = (lib.observe(ev.evaluate, 'Sheet1!Z2'),
+                       lib.observe(ev.get_cell_value, 'Sheet1!Z1'),
+                       lib.observe(ev.evaluate, 'Sheet1!Z3'))
+                want = ('err:' + code, 'err:' + code, 'bool:True')
+                ctx.check('C07/h/%s/%s/%s' % (code, fname, text),
+                          ' '.join(got), ' '.join(want),
+                          ['grp:h', 'family:one-cell-both-operands',
+                           'op:' + sym, 'form:' + fname], {'g': 'h'}, True)
+                lib.clear_caches()
+
+
 def gen_g(shard, tier):
+    if shard['g'] == 'h':
+        yield {'g': 'h', 'judge': 'h', 'key': 'C07/h', 'tags': []}
+        return
     yield {'g': 'g', 'judge': 'g', 'key': 'C07/g', 'tags': []}
 
 
-GEN = {'g': gen_g, 'a': gen_a, 'b': gen_b, 'c': gen_c, 'd': gen_d, 'e': gen_e,
+GEN = {'g': gen_g, 'h': gen_g, 'a': gen_a, 'b': gen_b, 'c': gen_c, 'd': gen_d, 'e': gen_e,
        'f': gen_f}
 
 
@@ -973,6 +1004,7 @@ def plan(tier):
         shards.append({'g': 'e', 'name': fn})
     shards.append({'g': 'f', 'name': 'chains'})
     shards.append({'g': 'g', 'name': 'python-equal-constants'})
+    shards.append({'g': 'h', 'name': 'one-cell-both-operands'})
     return shards
 
 
@@ -998,6 +1030,9 @@ def replay(inputs, ctx):
     warnings.simplefilter('ignore')
     if inputs.get('g') == 'g':
         run_g(ctx)
+        return
+    if inputs.get('g') == 'h':
+        run_h(ctx)
         return
     run_case(dict(inputs), ctx)
 
